@@ -98,6 +98,18 @@ CLAIMED['C14'] = dict(
           "translator T-A for the rule table; shapely.affinity.rotate sampled against the closed formula; nested sequences out of scope."),
     ref="DESIGN.md section 4 C14")
 
+CLAIMED['C05'] = dict(
+    technique="Coq proofs by induction over the bounded loop (bound, honest convergence, warning iff never converged) on a model with numpy nan/inf/broadcast semantics; tied by differential runs",
+    text=("Theorems for every body (any vectors, any raise points), every precision and limit: at most max_iteration_count-1 body "
+          "evaluations; 'finished after k iterations' only if iterate k passed the component-wise relative test against the stored "
+          "vector, which is iterate k-1 of the same solve for k>1 and can never pass on a fresh unit's first iterate; the warning is "
+          "issued iff every allowed iteration failed the test; what is stored afterwards. Reproducibility (fresh twin, deep copy, "
+          "re-solve within precision, recovery after an aborted solve) is about the numerical iteration map and is exercised on a "
+          "real sequence only (partial)."),
+    note=("Trusted: Coq kernel (no axioms; Q arithmetic); model coq/lib/SolveLoop.v tied to Unit.solve by scripted units whose "
+          "root-hook vectors follow generated scripts of dyadic numbers (exact in float and Q); log messages identify the outcome."),
+    ref="DESIGN.md section 4 C05")
+
 NOT_YET = {}
 
 
